@@ -358,6 +358,8 @@ class Client:
             raise NotImplementedError("Client configuration does not provide a security algorithm")
 
         response = self.request_seed._func_no_error_management(self, level, data=seed_params)
+        if response is None:    # Positive response suppressed: there is no seed to compute a key from
+            return None
         seed = response.service_data.seed
         if len(seed) > 0 and seed == b'\x00' * len(seed):
             self.logger.info('%s - Security access level 0x%02x is already unlocked, no key will be sent.' %
